@@ -96,7 +96,7 @@ def run(ctx, report: Report) -> None:
     report.trusted_base = ['re._parser.parse', 'ast']
 
     # ---- R1 ----------------------------------------------------------------------------------------------
-    r1 = report.rule('C20-R1', 'scanner loops make progress or leave', floor=6)
+    r1 = report.rule('C20-R1', 'scanner loops make progress or leave', floor=4)
     targets = [('css_parser.CSSParser.selector_iter', 'tokens'), ('pretty.pretty', 'pretty')]
     for fq, kind in targets:
         mod, fn = src.func(fq)
@@ -148,7 +148,7 @@ def run(ctx, report: Report) -> None:
                 r1.violation(f'{fq} loop-bound', mod.where(lp.node), f'{fq}: the loop bound {lp.bound} changes inside the loop')
 
     # ---- R2 ----------------------------------------------------------------------------------------------
-    r2 = report.rule('C20-R2', 'the pretty-printer emits every token kind', floor=4)
+    r2 = report.rule('C20-R2', 'the pretty-printer emits every token kind', floor=2)
     pmod, pfn = src.func('pretty.pretty')
     from ..interp import Obj, Raised, call_function
     from ..miniev import Unsupported
@@ -192,7 +192,7 @@ def run(ctx, report: Report) -> None:
                      f'pretty(): a character that no token pattern matches yields {out!r} instead of being copied to the output')
 
     # ---- R3 ----------------------------------------------------------------------------------------------
-    r3 = report.rule('C20-R3', 'syntax errors carry the pattern and the position named in the message', floor=3)
+    r3 = report.rule('C20-R3', 'syntax errors carry the pattern and the position named in the message', floor=2)
     cmod = src.mod('css_parser')
     for q, fn in cmod.functions.items():
         for rs in [n for n in walk_no_nested(fn) if isinstance(n, ast.Raise) and isinstance(n.exc, ast.Call)]:
@@ -261,7 +261,7 @@ def run(ctx, report: Report) -> None:
                 r3.violation(f'css_parser.{q} raise {p[:50]}', cmod.where(rs), f'css_parser.{q}: SelectorSyntaxError {p}')
 
     # ---- R4 ----------------------------------------------------------------------------------------------
-    r4 = report.rule('C20-R4', 'statements under the debug flag only print', floor=3)
+    r4 = report.rule('C20-R4', 'statements under the debug flag only print', floor=2)
     for mn, mod in src.mods.items():
         for q, fn in mod.functions.items():
             for n in walk_no_nested(fn):
@@ -428,7 +428,7 @@ def run(ctx, report: Report) -> None:
     r8.findings[:] = [f for f in r8.findings if 'error offset' in f.key]
 
     # ---- R9 (texts compiled by interpretation, bounded) -----------------------------------------------------------------
-    r9 = report.rule('C20-R9', 'compiling with and without the DEBUG flag gives the same structure or the same error (bounded)', floor=7)
+    r9 = report.rule('C20-R9', 'compiling with and without the DEBUG flag gives the same structure or the same error (bounded)', floor=5)
     from .e2etab import debug_invariance_table
     debug_invariance_table(ctx, r9)
 
